@@ -50,9 +50,16 @@ fn main() {
         let code = mc::with_n!(n, run_replay::<Kx>(nk, ext, &path, op, props));
         std::process::exit(code);
     }
+    let payload = args.get("payload").unwrap_or("kx").to_string();
     for n in ns {
         let nk = (n + extra_k).max(1) as u8;
-        mc::with_n!(n, run_bfs::<Kx>(&mut rep, nk, ext, threads, &caps));
+        match payload.as_str() {
+            "u8" => mc::with_n!(n, run_bfs::<u8>(&mut rep, nk, ext, threads, &caps)),
+            "string" => mc::with_n!(n, run_bfs::<String>(&mut rep, nk, ext, threads, &caps)),
+            "unit" => mc::with_n!(n, run_bfs::<()>(&mut rep, nk, ext, threads, &caps)),
+            "nodrop" => mc::with_n!(n, run_bfs::<mc::payload::Kn>(&mut rep, nk, ext, threads, &caps)),
+            _ => mc::with_n!(n, run_bfs::<Kx>(&mut rep, nk, ext, threads, &caps)),
+        }
     }
     std::process::exit(rep.finish(args.get("out")));
 }
